@@ -1,6 +1,7 @@
 package vd
 
 import (
+	"os"
 	"encoding/binary"
 	"encoding/hex"
 	"fmt"
@@ -248,7 +249,17 @@ func RenderProg(insts []bpf.Instruction) string {
 
 // Compile runs the real Policy.Assemble for the policy's architecture and byte order.
 // The reply is "OK n instr*", "ERR <class> [<hex message>]" or "PANIC <hex message>".
+// NoteRequest records the request that is about to be run on the implementation (file named by VERIF_LAST):
+// a crash of the whole process — a panic in a goroutine the implementation started cannot be recovered by
+// the caller — is then attributed to an input.
+func NoteRequest(line string) {
+	if f := os.Getenv("VERIF_LAST"); f != "" {
+		os.WriteFile(f, []byte(line+"\n"), 0o644)
+	}
+}
+
 func (p *Policy) Compile() (reply string, insts []bpf.Instruction) {
+	NoteRequest(p.Request())
 	defer func() {
 		if r := recover(); r != nil {
 			reply = "PANIC " + Hex(fmt.Sprint(r))
